@@ -482,10 +482,112 @@ def gen_laws(tier):
     return cases
 
 
+# ---------------------------------------------------------------------------
+# one spec OBJECT placed at several positions of a composite must behave like separate, equal objects
+
+def _inc(x):
+    return x + 1 if isinstance(x, int) else x
+
+
+def _pack(*a, **kw):
+    return ['pack', list(a), sorted(kw.items())]
+
+
+def _first_int(v):
+    while isinstance(v, (list, tuple, dict)) and v:
+        v = list(v.values())[0] if isinstance(v, dict) else v[-1] if isinstance(v[-1], (list, tuple, dict, int)) and not isinstance(v[-1], bool) else v[0]
+        if isinstance(v, str):
+            return 0
+    return v if isinstance(v, int) else 0
+
+
+REUSE_POOL = {
+    'call-list-args': lambda: Call(_inc, args=[T]),
+    'call-tuple-args': lambda: Call(_inc, args=(T,)),
+    'call-kwargs': lambda: Call(_pack, kwargs={'k': T}),
+    'call-nested-list': lambda: Call(_pack, args=([T, 1],)),
+    'call-nested-dict': lambda: Call(_pack, args=({'v': T},)),
+    'call-args-and-kwargs': lambda: Call(_pack, args=[T, [T]], kwargs={'k': [T]}),
+    's-call-list': lambda: G.S.pack([T, 1]),
+    's-call-dict': lambda: G.S.pack(k={'v': T}),
+    's-index-list': lambda: G.S.rec[[T]],
+    'invoke-specs': lambda: Invoke(_pack).specs(T).constants(1),
+    'invoke-star-kwargs': lambda: Invoke(_pack).star(kwargs={'k': T}),
+    'invoke-star-args': lambda: Invoke(_pack).star(args=Spec((T, lambda t: [t]))),
+    'coalesce': lambda: Coalesce('zz', T),
+    'coalesce-default-list': lambda: Coalesce('zz', default=[1]),
+    'dict-spec': lambda: {'v': T},
+    'fill': lambda: G.Fill({'v': T, 'l': [T]}),
+    'ref': lambda: Ref('r', Call(_inc, args=[T])),
+    'lambda': lambda: (lambda t: _inc(t)),
+    'spec-wrapped-call': lambda: Spec(Call(_inc, args=[T])),
+    't-arith': lambda: T + 1 if False else Call(_inc, kwargs={}, args=[Spec(T)]),
+    'tuple-of-calls': lambda: (Call(_inc, args=[T]), Call(_inc, args=[T])),
+    'val-list': lambda: (Val([1]), Call(_pack, args=[T])),
+}
+REUSE_TEMPLATES = ['chain', 'chain3', 'pipe', 'dict', 'list', 'in-call-args', 'mapped-in-call-arg', 'two-calls', 'coalesce-siblings', 'chain-after-step']
+
+
+class _Rec:
+    def __getitem__(self, k):
+        return ['item', k]
+
+
+def reuse_eval(template, mk, shared):
+    """shared=True: one object from mk() everywhere; False: a fresh equal object at every position (and every item)"""
+    one = mk() if shared else None
+    x = (lambda: one) if shared else mk
+    scope = {'pack': _pack, 'rec': _Rec()}
+    g = lambda t, spec: glom(t, spec, scope=dict(scope))
+    if template == 'chain':
+        return g(1, (x(), x()))
+    if template == 'chain3':
+        return g(1, (x(), x(), x()))
+    if template == 'pipe':
+        return g(1, Pipe(x(), x()))
+    if template == 'dict':
+        return g(1, {'p': x(), 'q': (_inc, x())})
+    if template == 'list':
+        return g([1, 5], [x()]) if shared else [g(1, x()), g(5, x())]
+    if template == 'in-call-args':
+        return g(1, Call(_pack, args=[Spec(x()), Spec((_inc, x()))]))
+    if template == 'mapped-in-call-arg':
+        return g([1, 5], Call(list, args=[Spec([x()])])) if shared else [g(1, x()), g(5, x())]
+    if template == 'two-calls':
+        a = x()
+        b = x()
+        return [g(1, a), g(5, b)]
+    if template == 'coalesce-siblings':
+        return g(1, Coalesce((x(), 'zz'), (_inc, _inc, x())))
+    if template == 'chain-after-step':
+        return g({'a': 1, 'b': 5}, {'p': ('a', x()), 'q': ('b', x())})
+    raise ValueError(template)
+
+
+def run_reuse(case):
+    name, template = case
+    mk = REUSE_POOL[name]
+    res = []
+    for shared in (False, True):
+        try:
+            res.append(('ok', repr(reuse_eval(template, mk, shared))))
+        except Exception as e:
+            res.append(('err', type(e).__name__))
+    if res[0] != res[1]:
+        return R({'expected': 'as with separate equal objects: %r' % (res[0],), 'observed': 'one shared object: %r' % (res[1],),
+                  'spec': name, 'template': template}, 'reuse')
+    return R(None, template + ':' + res[0][0], nontrivial=res[0][0] == 'ok', steps=2, tags={name, template})
+
+
 def subs(tier, only=None):
     from ..engine import fast_tracebacks
     fast_tracebacks()
     out = [
+        Sub('object-reuse', [[n, t] for n in REUSE_POOL for t in REUSE_TEMPLATES], run_reuse,
+            rule='case = (spec with list / dict / tuple arguments, composite template): the composite built with ONE spec object at all '
+                 'positions (chain steps, dict siblings, list items, call arguments, successive calls) against the same composite built from '
+                 'separate equal objects',
+            min_nontrivial=150, min_outcomes=8, required_tags=['call-list-args', 'call-kwargs', 's-call-list', 'chain', 'mapped-in-call-arg']),
         Sub('ref-interpreter', gen_cases(tier), run_case,
             rule='case = (target, spec term) from the type-directed generator; result, container types, key order and the call log of the '
                  'instrumented callables compared with the reference interpreter',
